@@ -410,7 +410,7 @@ class Agent(dbus.service.Object):
 
             elif isinstance(msg.payload, (TransferSeg, TransferEnd)):
                 self.__logger.debug('Received transfer-seg xfer_num=%d, seg_idx=%d, size %d',
-                                    msg.payload.xfer_num, msg.payload.seg_idx, len(msg.payload.payload.load))
+                                    msg.payload.xfer_num, msg.payload.seg_idx, len(bytes(msg.payload.payload)))
                 key = (conv.key, msg.payload.xfer_num)
                 xfer: RxTransfer = self._rx_progres.setdefault(key, RxTransfer())
 
@@ -420,7 +420,8 @@ class Agent(dbus.service.Object):
                         xfer.got_end = msg.payload.seg_idx
 
                     xfer.got_idx |= apiIntInterval.singleton(msg.payload.seg_idx)
-                    xfer.data[msg.payload.seg_idx] = msg.payload.payload.load
+                    # a segment without data has no payload layer at all
+                    xfer.data[msg.payload.seg_idx] = bytes(msg.payload.payload)
                     self.__logger.debug('Current transfer state %s of %s', xfer.got_idx, xfer.got_end)
                     # one timeout per transfer, restarted by each new segment
                     if xfer.timeout_id is not None:
